@@ -73,9 +73,13 @@ func checkVars(env *evalEnv, s varSnap, tag string) {
 
 // H_C19_repeat: evaluate under V1, V2, V1 on one compiled instance.
 func H_C19_repeat() {
-	L := vParam("L")
-	l := 1 + vChoice("len", L)
-	toks := parsers.VerifSymTokens(l)
+	var toks []*parsers.ExpressionToken
+	if sk := vParam("SKEL"); sk >= 0 {
+		toks = c01SkeletonTokens(sk) // fixed shapes (calls with several arguments, nested calls, indexing)
+	} else {
+		toks = parsers.VerifSymTokens(1 + vChoice("len", vParam("L")))
+	}
+	l := len(toks)
 	calc := NewExpressionCalculator()
 	var err error
 	if guarded(func() { err = calc.parser.VerifParseInitialTokens(toks) }) {
